@@ -38,6 +38,7 @@ const (
 	shEndlessStart  = "endless-start-fragments"
 	shEndlessMiddle = "endless-middle-fragments" // consecutive sequence numbers, constant timestamp, no start
 	shStartMiddles  = "start-then-middles-never-ended"
+	shStartZeroMid  = "start-then-middles-declaring-zero-size"
 	shFillThenFrag  = "complete-units-without-marker-then-unended-fragments"
 	shUnitsNoMarker = "complete-units-never-marked"
 	shFragThenFill  = "unended-fragments-then-complete-units-never-marked" // a pending fragmented unit of about half the maximum, then single-packet units for ever
@@ -48,7 +49,7 @@ const (
 	shCorpus        = "repository-fuzz-corpus"
 )
 
-var accumulationShapes = []string{shStartMiddles, shFillThenFrag, shFragThenFill, shUnitsNoMarker, shEndlessStart}
+var accumulationShapes = []string{shStartMiddles, shStartZeroMid, shFillThenFrag, shFragThenFill, shUnitsNoMarker, shEndlessStart}
 
 // source produces the packets of a history in order.
 type source struct {
@@ -123,7 +124,7 @@ func newSource(spec histSpec, t target, corpus map[string][]*rtp.Packet) (*sourc
 				s.seqMode = seqGaps
 			}
 		}
-	case shEndlessStart, shEndlessMiddle, shStartMiddles, shFillThenFrag, shFragThenFill, shUnitsNoMarker:
+	case shEndlessStart, shEndlessMiddle, shStartMiddles, shStartZeroMid, shFillThenFrag, shFragThenFill, shUnitsNoMarker:
 		// the named shapes: consecutive sequence numbers, constant timestamp, never a marker
 		s.seqMode, s.tsMode, s.mkMode = seqConsecutive, tsEqual, mkNever
 	case shMutated, shTruncSweep:
@@ -255,7 +256,8 @@ func (s *source) next() *rtp.Packet {
 	case shEndlessMiddle:
 		mk(rMiddle, s.spec.Size)
 		s.stamp(p, false)
-	case shStartMiddles:
+	case shStartMiddles, shStartZeroMid:
+		s.g.zeroMiddles = s.spec.Shape == shStartZeroMid
 		if i == 0 {
 			mk(rStart, s.spec.Size)
 		} else {
